@@ -747,8 +747,8 @@ CONTAINER_METHODS = {
 
 def _comp_domain(ex, gen, st):
     """-> (state, sort, u, dom(u) as a function, bind(state_u), ordered) or raises Unsupported"""
-    if gen.ifs or gen.is_async:
-        raise Unsupported(f"comprehension with a condition at {ex.where(gen.iter)}")
+    if gen.is_async:
+        raise Unsupported(f"async comprehension at {ex.where(gen.iter)}")
     it = gen.iter
     enum = False
     if isinstance(it, ast.Call) and isinstance(it.func, ast.Name) and it.func.id == "enumerate":
@@ -805,7 +805,23 @@ def _comp_eval(ex, node, st, exprs):
     """evaluate `exprs` on a symbolic element: -> (state, u, dom, ordered, n, ok(u), [value terms], raise_cases)"""
     if len(node.generators) != 1:
         raise Unsupported("comprehension with several for clauses")
-    s, u, dom, bind, ordered, n = _comp_domain(ex, node.generators[0], st)
+    gen = node.generators[0]
+    s, u, dom0, bind, ordered, n = _comp_domain(ex, gen, st)
+    dom = dom0
+    if gen.ifs:
+        # the filter must be a pure total boolean of the element
+        sf = s.fork().assume(dom0(u))
+        bind(sf)
+        cond_node = gen.ifs[0] if len(gen.ifs) == 1 else ast.BoolOp(op=ast.And(), values=list(gen.ifs))
+        if len(gen.ifs) > 1:
+            ast.copy_location(cond_node, gen.ifs[0])
+        pv = ex.eval_pure(cond_node, sf, z3.BoolVal(True))
+        if pv is None:
+            raise Unsupported(f"comprehension filter with effects or exceptions at {ex.where(gen.iter)}")
+        keep = ex.truthy(sf, pv)
+        dom = lambda x: z3.And(dom0(x), z3.substitute(keep, (u, x)))  # noqa: E731
+        ordered = False  # positions of kept elements are not modelled
+        n = None
     su = s.fork()
     su.assume(dom(u))
     bind(su)
@@ -816,7 +832,8 @@ def _comp_eval(ex, node, st, exprs):
     for so, k, vs in outs:
         cond = z3.And(*so.pc[base_len:]) if len(so.pc) > base_len else z3.BoolVal(True)
         for hn, arr in so.heap.items():
-            if hn in heap_before and not arr.eq(heap_before[hn]) and hn != "alloc":
+            before = heap_before[hn] if hn in heap_before else T.heap0(hn)
+            if not arr.eq(before) and hn != "alloc":
                 raise Unsupported("comprehension element with a heap effect")
         if k == "exc":
             excs.append((cond, vs))
@@ -859,7 +876,19 @@ def _comp_outcomes(ex, s, u, dom, ordered, ok, excs, build):
 def eval_listcomp(ex, node, st):
     s, u, dom, ordered, n, ok, vals, excs = _comp_eval(ex, node, st, [node.elt])
     if not ordered:
-        raise Unsupported("list comprehension over an unordered source")
+        # filtered (or unordered-source) comprehension: a fresh list characterised by membership
+        # (every kept element occurs, nothing else occurs); positions are not modelled
+        def build_members(g):
+            arr = ex.fresh("lcf", T.ArrIV)
+            ln = ex.fresh("lcfl", T.I)
+            ub = z3.Const("cu", u.sort())
+            jj = z3.Int("cjj")
+            g.assume(ln >= 0)
+            g.assume(T.forall([ub], z3.Implies(dom(ub), z3.Exists([jj], z3.And(jj >= 0, jj < ln, arr[jj] == z3.substitute(vals[0], (u, ub)))))))
+            g.assume(T.forall([jj], z3.Implies(z3.And(jj >= 0, jj < ln), z3.Exists([ub], z3.And(dom(ub), arr[jj] == z3.substitute(vals[0], (u, ub))))), patterns=[arr[jj]]))
+            return ex.new_list(g, ln, arr, hint="list")
+
+        return _comp_outcomes(ex, s, u, dom, False, ok, excs, build_members)
 
     def build(g):
         arr = ex.fresh("lc", T.ArrIV)
@@ -1152,6 +1181,15 @@ def m_isdisjoint(ex, node, st, rt):
 
 CONTAINER_METHODS["isdisjoint"] = m_isdisjoint
 
+
+def m_keys(ex, node, st, rt):
+    """d.keys(): modelled as the dict itself (membership, iteration and set operations on the
+    view read the dict's key set)"""
+    return [(st, "val", sv_val(rt))]
+
+
+CONTAINER_METHODS["keys"] = m_keys
+
 SORTED_OF = z3.Function("sorted_of", T.ArrVB, Val)
 
 
@@ -1191,8 +1229,33 @@ BUILTINS["getattr"] = b_getattr
 
 
 def m_update(ex, node, st, rt):
-    """d.update(other_dict): keys of other added / overwritten"""
+    """d.update(other_dict): keys of other added / overwritten; s.update(iterable): members added"""
     outs = []
+    if ex.container_kind(node.func.value) == "set":
+        arg = node.args[0]
+        if isinstance(arg, ast.GeneratorExp):
+            comp = ast.SetComp(elt=arg.elt, generators=arg.generators)
+            ast.copy_location(comp, arg)
+            srcs = eval_setcomp(ex, comp, st)
+        else:
+            srcs = ex.eval(arg, st)
+        for s, k, v in srcs:
+            if k == "exc":
+                outs.append((s, k, v))
+                continue
+            src = as_val(v)
+            ex.check_store_allowed(s, rt, node)
+            ex.on_store(s, rt)
+            h = Heap(ex, s)
+            nh = ex.fresh("suh", T.ArrVB)
+            kk = z3.Const("kk", Val)
+            s.assume(T.forall([kk], nh[kk] == z3.Or(h.arr("dhas")[rt][kk], h.arr("dhas")[src][kk]), patterns=[nh[kk]]))
+            nl = ex.fresh("sul", T.I)
+            s.assume(nl >= h.dlen(rt), nl >= 0)
+            h.set("dhas", z3.Store(h.arr("dhas"), rt, nh))
+            h.set("dlen", z3.Store(h.arr("dlen"), rt, nl))
+            outs.append((s, "val", sv_val(T.None_)))
+        return outs
     for s, k, vs in _args(ex, node, st):
         if k == "exc":
             outs.append((s, k, vs))
@@ -1324,3 +1387,21 @@ def _field_default(mod, clsname, fname):
         if isinstance(stt, ast.AnnAssign) and isinstance(stt.target, ast.Name) and stt.target.id == fname:
             return stt.value
     return None
+
+
+def eval_setcomp(ex, node, st):
+    """{E(x) for x in xs if C(x)}: a fresh set characterised by membership"""
+    s, u, dom, ordered, n, ok, vals, excs = _comp_eval(ex, node, st, [node.elt])
+
+    def build(g):
+        has = ex.fresh("sch", T.ArrVB)
+        ub = z3.Const("cu", u.sort())
+        x = z3.Const("cx", Val)
+        ex_ = lambda t: z3.substitute(vals[0], (u, t))  # noqa: E731
+        g.assume(T.forall([ub], z3.Implies(dom(ub), has[ex_(ub)])))
+        g.assume(T.forall([x], z3.Implies(has[x], z3.Exists([ub], z3.And(dom(ub), x == ex_(ub)))), patterns=[has[x]]))
+        ln = ex.fresh("scl", T.I)
+        g.assume(ln >= 0, (ln == 0) == z3.Not(z3.Exists([ub], dom(ub))))
+        return ex.new_dict(g, has, T.NOGET, ln, K("set"), "set")
+
+    return _comp_outcomes(ex, s, u, dom, ordered, ok, excs, build)
